@@ -14,6 +14,10 @@ DEDICATED = [
     ("by_generic_field", "#[derive_ex::derive_ex(PartialEq, Eq, PartialOrd, Ord, Hash)]\npub struct X<T>(#[ord(by = crate::support::gby_ord)] #[hash(by = crate::support::gby_hash)] pub Option<T>, pub u8);"),
     ("key_generic_field_bound", "#[derive_ex::derive_ex(PartialEq, Eq, Hash)]\npub struct X<T>(#[eq(key = crate::support::gk(&$), bound(T: crate::support::Marker))] pub T);"),
     ("by_lifetime_field", "#[derive_ex::derive_ex(PartialEq, PartialOrd)]\npub struct X<'a, T>(#[partial_ord(by = crate::support::gby_partial_ord)] pub &'a T, pub u8);"),
+    ("helper_bounds_type_level", "#[derive_ex::derive_ex(PartialEq, Eq, PartialOrd, Ord, Hash)]\n#[hash(bound(T: core::hash::Hash))] #[partial_eq(bound(T: PartialEq))] #[eq(bound(T: Eq))] #[partial_ord(bound(T: PartialOrd))] #[ord(bound(T: Ord))]\npub struct X<T>(pub T, pub u8);"),
+    ("helper_bounds_variant_level", "#[derive_ex::derive_ex(PartialEq, Eq, PartialOrd, Ord, Hash)]\npub enum X<T, U> { #[hash(bound(T: core::hash::Hash))] #[eq(bound(T: Eq))] #[ord(bound(T: Ord))] A(T), #[partial_eq(bound(U: PartialEq))] #[partial_ord(bound(U: PartialOrd))] #[ord(bound(U: Ord + core::hash::Hash))] B { u: U }, C }"),
+    ("helper_bounds_two_attrs", "#[derive_ex::derive_ex(PartialEq, Eq, Hash)]\n#[hash(bound(T: core::hash::Hash))] #[eq(bound(T: Eq))]\npub struct X<T> { pub t: T }"),
+    ("debug_default_helper_bounds", "#[derive_ex::derive_ex(Debug, Default, Clone(bound(T: Clone)))]\n#[debug(bound(T: core::fmt::Debug))] #[default(_, bound(T: Default))]\npub struct X<T> { pub t: T }"),
     ("eq_self_where", "#[derive_ex::derive_ex(PartialEq, Eq)]\npub struct X<T>(pub T) where Self: Sized;"),
     ("eq_self_where_enum", "#[derive_ex::derive_ex(PartialEq, Eq, PartialOrd, Ord, Hash, Clone, Debug)]\npub enum X<T> where Self: Sized { A(T), B }"),
     ("param_named_h", "#[derive_ex::derive_ex(Hash, PartialEq, Eq)]\npub struct X<H>(pub H, #[hash(by = crate::support::gby_hash)] pub u8);"),
@@ -48,7 +52,7 @@ def run(ctx):
     ex.close()
     rejected = 0
     for ci in range(0, len(kept), 250):
-        c = E.ECrate("C20", "c%02d" % (ci // 250), fam2.C20_SUPPORT, strict=True)
+        c = E.ECrate("C20", "c%02d" % (ci // 250), fam2.C20_SUPPORT, strict=True, strict_allow="")     # no lint is silenced: names are conventional
         for p in kept[ci:ci + 250]:
             c.add(p)
         c.write()
@@ -74,7 +78,7 @@ def run(ctx):
 def replay(path):
     rep = json.load(open(path))
     print("what:", rep.get("what"))
-    c = E.ECrate("C20", "replay", rep.get("extra_support", ""), strict=True)
+    c = E.ECrate("C20", "replay", rep.get("extra_support", ""), strict=True, strict_allow="" if rep.get("property") == "C20" else "non_camel_case_types, non_snake_case, non_upper_case_globals")
     c.add(E.Prog("p_replay", rep["program"], [], rep.get("meta")))
     c.write()
     rej = c.triage()
